@@ -83,6 +83,9 @@ def forests(tier):
                 twins.append(T.to_spec(lab))
     twins.append((('e', 'a', (), (('e', 'b', (), ()), ('e', 'b', (), ()), ('e', 'b', (), (('e', 'a', (), ()),)))), ('e', 'a', (), (('e', 'b', (), ()), ('e', 'b', (), ()), ('e', 'b', (), (('e', 'a', (), ()),))))))
     out = out + twins
+    inner = ('e', 'html', (), (('e', 'body', (), (('e', 'a', (('id', 'in1'),), (('e', 'b', (('id', 'in2'),), ()),)), ('e', 'b', (), ()))),))
+    out.append((('e', 'a', (('id', 'o1'),), (('e', 'b', (('id', 'o2'),), (('e', 'iframe', (), (inner,)),)), ('e', 'a', (), ()))),))
+    out.append((('e', 'b', (), (('e', 'iframe', (), (('e', 'a', (), (('e', 'a', (), ()),)),)), ('e', 'a', (('id', 'o3'),), ()))),))
     # a few trees with interleaved non-element children (filter/select must never return them)
     extra = []
     for f in out[:12]:
@@ -380,6 +383,30 @@ def run_xmlns(sv, res):
                                 res.outcome('xmlns-coherent')
                                 if w:
                                     res.nontrivial += 1
+    # one dict OBJECT reused by the caller and re-bound between calls (no purge): each call must see the bindings of that moment
+    for text in XML_SELECTORS[:7]:
+        sv.purge()
+        m = {'x': 'urn:a'}
+        cu = {':--c': 'x|e'}
+        for step, (uri, body) in enumerate((('urn:a', 'x|e'), ('urn:b', 'x|f'), ('urn:a', '[id]'), ('urn:zz', 'x|e'))):
+            m['x'] = uri
+            cu[':--c'] = body
+            for entry in ('select', 'filter'):
+                try:
+                    got = getattr(sv, entry)(text, soup if entry == 'select' else els[0], namespaces=m)
+                    fresh = sv.css_parser._cached_css_compile.__wrapped__(text, sv.css_types.Namespaces(dict(m)), None, 0)
+                    pool = els if entry == 'select' else [e for e in els[0].contents if isinstance(e, bs4.Tag)]
+                    want = [e for e in pool if fresh.match(e)]
+                    g, w = [idx[id(x)] for x in got], [idx[id(x)] for x in want]
+                except Exception as e:
+                    g, w = 'raise:' + type(e).__name__, 'no exception'
+                res.evaluations += 1
+                if g != w:
+                    res.fail({'layer': 'xmlns', 'text': text, 'maps': 'reused-dict', 'customs': None, 'entry': entry},
+                             {'entry': entry, 'what': 'caller-reuses-one-dict-object', 'custom': False},
+                             f'{entry}({text!r}, namespaces=<the same dict object, x re-bound to {uri!r} at step {step}>) = {g}; with the bindings of that moment it must be {w}')
+                else:
+                    res.outcome('reused-dict-ok')
     return res
 
 
